@@ -10,7 +10,7 @@ N(v4, u) == [t |-> "num", lo |-> v4, hi |-> v4, unit |-> u, txt |-> ""]
 R(a4, b4, u) == [t |-> "range", lo |-> a4, hi |-> b4, unit |-> u, txt |-> ""]
 T(s, u) == [t |-> "text", lo |-> 0, hi |-> 0, unit |-> u, txt |-> s]
 Pool == { N(1000, "ml"), N(4, "l"), N(8, "cup"), N(6, "tsp"), R(4, 8, "l"), N(2000, "g"), N(4, "lb"), N(6, "kg"),
-          N(8, "bag"), N(4, "bag"), N(4, "box"), N(12, ""), N(2, ""), R(4, 12, ""), T("some", ""), T("a pinch", "g"), T("some", "") }
+          N(8, "Bag"), N(4, "Bag"), N(4, "box"), N(12, ""), N(2, ""), R(4, 12, ""), T("some", ""), T("a pinch", "g"), T("some", "") }
 Init == g1 = Empty /\ g2 = Empty /\ in1 = <<>> /\ in2 = <<>> /\ ops = <<>> /\ merged = FALSE
 AddOp(k) == /\ ~merged /\ Len(in1) + Len(in2) < MaxAdds
             /\ \E q \in Pool :
